@@ -135,6 +135,7 @@ func shrinkCandidates(sc *Scenario) []*Scenario {
 					c.Meta["expr"] = alt
 					c.Meta["expr_raw"] = alt
 					c.Meta["family"] = "shrunk"
+					c.Meta["total"] = false
 					c.Meta["expr_alts"] = []any{"."}
 					return hit
 				})
